@@ -367,7 +367,8 @@ impl CommandAnalyzer {
 
     /// Recursively extract type names from complex types
     fn extract_type_names_recursive(&self, rust_type: &str, type_names: &mut HashSet<String>) {
-        let rust_type = rust_type.trim();
+        // `crate::models::User` names `User`, `std::vec::Vec<T>` is `Vec<T>`
+        let rust_type = type_resolver::strip_path_prefix(rust_type.trim());
 
         // Handle Result<T, E> - extract both T and E
         if rust_type.starts_with("Result<") {
